@@ -2,7 +2,7 @@
 import kani_check
 
 FUNCS = ['solvers::StableSemanticsSolver::{compute_one_extension,are_credulously_accepted[_with_certificate],are_skeptically_accepted[_with_certificate]}', 'solvers::CompleteSemanticsSolver::are_credulously_accepted[_with_certificate] (DC-CO and DC-PR, encoders aux_var / exp / hybrid)', 'solvers::GroundedSemanticsSolver (GR, SE-CO, DS-CO)', 'utils::ConnectedComponentsComputer', 'utils::grounded_extension', 'encodings::{DefaultStableConstraintsEncoder,aux_var,exp,hybrid}::{encode_constraints,arg_to_lit,assignment_to_extension}', 'aa::{AAFramework,ArgumentSet}, utils::LabelSet (HashMap replaced by VecMap under cfg(kani))']
-BOUNDS = 'one harness = one concrete framework presentation (graph code, plain / duplicated attacks / sparse ids) x every listed query on a fresh solver object; symbolic: every model the SAT backend may return at every call (demonic oracle: SAT/UNSAT computed over all assignments of <=6 variables, the model is an arbitrary satisfying one). Frameworks: 2 arguments (quick), 2-3 arguments (thorough), listed in the harness names (gN = graph code, bit i*n+j = attack i->j). OUTSIDE the claim: the iterative solvers PR (SE/DS), SST, STG, ID and MaximalExtensionComputer (CBMC does not finish on them even for a<->b: >16 GB / >25 min, see DESIGN.md), frameworks with more than 3 arguments, the real backends.'
+BOUNDS = 'one harness = one concrete framework presentation (graph code, plain / duplicated attacks / sparse ids) x every listed query on a fresh solver object; symbolic: every model the SAT backend may return at every call (demonic oracle: SAT/UNSAT computed over all assignments of <=6 variables, the model is an arbitrary satisfying one). Frameworks: 2 arguments (quick), 2-3 arguments (thorough), listed in the harness names (gN = graph code, bit i*n+j = attack i->j). OUTSIDE the claim: the iterative solvers PR (SE/DS), SST, STG, ID and MaximalExtensionComputer on frameworks where the backend returns a model (CBMC does not finish on them even for a<->b: >16 GB / >25 min, see DESIGN.md; the harnesses on them use frameworks whose grounded extension decides every argument, so that every SAT call is unsatisfiable), frameworks with more than 3 arguments, the real backends.'
 ASSUME = ['demonic oracle (kani/src/oracle.rs): any correct SatSolver may return any model; reserved-but-unused variables are reported with an arbitrary value', 'reference semantics (kani/src/spec.rs) evaluated by rustc at compile time (const fn), cross-validated natively against the real code on all frameworks with <=3 arguments', 'a counterexample is only reported after native reproduction (native/explore find)']
 
 
